@@ -534,6 +534,24 @@ def run(fx, ck, OP):
             ck.finding("R25.in-walks-prototype-chain", "R25.in-walks-prototype-chain/%s" % nm25, F.short_span(owns[0][1] if owns else g25.span),
                        "`%s` decides `key in obj` with %s: inherited properties and the elements of an array are not found - `'toString' in {}`, `0 in [1]`, "
                        "`'length' in []`, `'m' in new (class { m(){} })` are all false" % (nm25, ("`%s`" % owns[0][0].split("::")[-1]) if owns else "no lookup that walks the prototype chain"))
+    # ---- R26 numeric natives: no half-away rounding, extremes order the zeros
+    import mathsign
+    ck.rule("R26.rounding-and-zero-order", "(a) no function of the interpreter rounds a script number half away from zero (`f64::round`, `libm::round`, a wrapper of one): "
+            "Math.round rounds halves up and keeps -0; (b) a loop that selects an extreme of doubles by `<` / `>` also consults the sign, because the comparisons "
+            "do not order -0 and +0", floor=2)
+    sc26 = lambda g: g.file.startswith("src/interpreter/")
+    rs26 = mathsign.round_sites(fx, sc26)
+    ck.instance("R26.rounding-and-zero-order", "half-away rounding calls in the interpreter: %d" % len(rs26), None, ok=not rs26)
+    for f26, sp26, d26 in rs26:
+        ck.finding("R26.rounding-and-zero-order", "R26.rounding-and-zero-order/%s/round" % f26.path, F.short_span(sp26),
+                   "`%s` rounds with `%s`, which rounds halves away from zero: Math.round(-2.5) is -3 (-2) and Math.round(-0.5) is -1 (-0)" % (f26.path, d26.split("::")[-1]))
+    ex26 = mathsign.extreme_loops(fx, sc26)
+    ck.anchor(len(ex26) >= 2, "loops that select an extreme of doubles (Math.max, Math.min)")
+    for f26, sp26, ok26 in ex26:
+        ck.instance("R26.rounding-and-zero-order", "%s: extreme loop consults the sign" % f26.path, F.short_span(sp26), ok=ok26)
+        if not ok26:
+            ck.finding("R26.rounding-and-zero-order", "R26.rounding-and-zero-order/%s/zeros" % f26.path, F.short_span(sp26),
+                       "`%s` selects the extreme by `<` / `>` alone: the two zeros compare equal, so the first one wins - Math.max(-0, 0) is -0 and Math.min(0, -0) is +0" % f26.path)
     # ---- R13 string positions have units
     import strunits
     ck.rule("R13.string-units", "units check over string natives: no script number from a byte quantity (U-out), no byte-position API fed a character quantity (U-in), "
@@ -684,6 +702,12 @@ def run(fx, ck, OP):
         pi[nm] = pi.get(nm, True) and ok
     if pi != {"bad_for": False, "good_for": True, "bad_for_continue": False, "good_for_continue": True}:
         ck.closed_fail.append("R10 control failed: %s" % pi)
+    import mathsign as MS26
+    in26 = lambda g: g.path.startswith("c01math::") and not g.path.startswith("c01math::prelude::")
+    r26 = sorted(set(f.path.split("::")[-1] for f, sp, d in MS26.round_sites(ctl, in26)))
+    e26 = {f.path.split("::")[-1]: ok for f, sp, ok in MS26.extreme_loops(ctl, in26)}
+    if r26 != ["bad_round", "bad_round_direct"] or e26 != {"bad_max": False, "good_max": True}:
+        ck.closed_fail.append("R26 control failed: %s %s" % (r26, e26))
     oa = {}
     for f, sp, ok, why in operand_rule(ctl, in_ctl):
         nm = f.path.split("::")[-1]
